@@ -247,6 +247,9 @@ struct MsgSpec
         LogMessage m(type, ctx, textNull ? QString() : text);
         for (const auto &p : attrList) m.setAttribute(p.first, p.second);
         g_clockOffsetNs += g_lagMs * 1000000LL;
+        // stay well before 2038: beyond it Qt 5 maps local-time rules onto an "equivalent" earlier year and may disagree with the C
+        // library about DST for reasons that have nothing to do with the code under test
+        if (g_clockOffsetNs > 8LL * 365 * 86400 * 1000000000LL) g_clockOffsetNs = 0;
         return m;
     }
 };
@@ -828,8 +831,30 @@ void run_program(Tok &k, const std::string &id)
 // root (unscoped) = [attr 3, sink 900, Z, sink 901]; Z is a SimplePipeline configured ONLY through the typed calls of
 // SortedPipeline (appendAttrHandler / appendFilter / setFormatter / appendSink / clear<Class> / clear), before the first
 // message and again between messages.
+PipelinePtr g_lateNested; // the unscoped plain pipeline nested in Z (ops tP / uA uF uM uS), per XL case
+
 void applyTyped(SimplePipeline &z, const std::string &op, int kk, ProgState *st)
 {
+    if (op == "tP") {
+        if (!g_lateNested) {
+            g_lateNested = PipelinePtr::create(false);
+            z.appendPipeline(g_lateNested);
+        }
+        return;
+    }
+    if (op[0] == 'u') { // plain append to the nested pipeline, also at run time
+        if (!g_lateNested) return;
+        if (op == "uA") g_lateNested->append(QSharedPointer<AtomAttr>::create(kk));
+        else if (op == "uF") g_lateNested->append(QSharedPointer<AtomFilter>::create(kk, st));
+        else if (op == "uM") g_lateNested->append(QSharedPointer<AtomFormatter>::create(kk));
+        else if (op == "uS") g_lateNested->append(QSharedPointer<AtomSink>::create(kk, st));
+        return;
+    }
+    if (op == "cc" || op == "cP") g_lateNested.reset();
+    if (op == "cP") {
+        z.clearPipelines();
+        return;
+    }
     if (op == "tA") z.appendAttrHandler(QSharedPointer<AtomAttr>::create(kk));
     else if (op == "tF") z.appendFilter(QSharedPointer<AtomFilter>::create(kk, st));
     else if (op == "tM") z.setFormatter(QSharedPointer<AtomFormatter>::create(kk));
@@ -848,6 +873,7 @@ void applyTyped(SimplePipeline &z, const std::string &op, int kk, ProgState *st)
 void run_program_late(Tok &k, const std::string &id)
 {
     ProgState st;
+    g_lateNested.reset();
     const bool zscoped = k.num() != 0;
     auto z = QSharedPointer<SimplePipeline>::create(zscoped);
     int n0 = int(k.num());
@@ -978,6 +1004,28 @@ int main(int argc, char **argv)
                 ms.parse(k);
                 LogMessage m = ms.make();
                 out << " " << hexs(pf.format(m)) << " " << stamp(m);
+            }
+            std::cout << out.str() << "\n";
+        } else if (cmd == "PF") {
+            // the pattern installed the way applications do it: through the fluent SimplePipeline::format(pattern)
+            QString pattern = unhexs(k.next());
+            int n = int(k.num());
+            SimplePipeline sp;
+            QString captured;
+            sp.format(pattern);
+            sp.handler([&captured](LogMessage &lm) {
+                captured = lm.formattedMessage();
+                return true;
+            });
+            std::ostringstream out;
+            out << "R " << id;
+            for (int i = 0; i < n; ++i) {
+                MsgSpec ms;
+                ms.parse(k);
+                LogMessage m = ms.make();
+                captured = QString();
+                sp.process(m);
+                out << " " << hexs(captured) << " " << stamp(m);
             }
             std::cout << out.str() << "\n";
         } else if (cmd == "J") {
